@@ -5,6 +5,7 @@ package printer
 import (
 	"fmt"
 
+	"wa-lang.org/wa/internal/wat/ast"
 	"wa-lang.org/wa/internal/wat/token"
 )
 
@@ -19,7 +20,13 @@ func (p *watPrinter) printExport() error {
 				p.indent, e.Name, watPrinter_identOrIndex(e.GlobalIdx),
 			)
 		case token.FUNC:
-			// skip
+			// 函数定义处内联的导出由 printFuncs 输出
+			if p.isInlineFuncExport(e) {
+				continue
+			}
+			fmt.Fprintf(p.w, `%s(export "%s" (func %s))`+"\n",
+				p.indent, e.Name, watPrinter_identOrIndex(e.FuncIdx),
+			)
 		case token.MEMORY:
 			fmt.Fprintf(p.w, `%s(export "%s" (memory %s))`+"\n",
 				p.indent, e.Name, watPrinter_identOrIndex(e.MemoryIdx),
@@ -33,4 +40,13 @@ func (p *watPrinter) printExport() error {
 		}
 	}
 	return nil
+}
+
+func (p *watPrinter) isInlineFuncExport(e *ast.ExportSpec) bool {
+	for _, fn := range p.m.Funcs {
+		if fn.Name == e.FuncIdx && fn.ExportName == e.Name {
+			return true
+		}
+	}
+	return false
 }
